@@ -193,6 +193,9 @@ func (f *Frame) doFieldAddr(x *ssa.FieldAddr) {
 	}
 	_, vs := arrParts(lv.asort)
 	f.enc.declSortOf(vs)
+	if isMutex(s.Field(x.Field).Type()) {
+		addr = f.p.muAddr(f.enc, base, st, x.Field)
+	}
 	f.setVal(x, addr)
 	if _, ok := structOf(s.Field(x.Field).Type()); ok {
 		// pointer to an embedded / nested struct
@@ -615,7 +618,7 @@ func (f *Frame) guardCheck(lv *LV, pos token.Pos, write bool) {
 		return
 	}
 	held := f.stGet("held", ArrSort(SInt, SBool))
-	mu := Add(lv.idx, IntLit(g.muOff))
+	mu := f.p.muAddr(f.enc, lv.idx, g.st, g.muIdx)
 	kind := "read"
 	if write {
 		kind = "write"
